@@ -47,6 +47,10 @@ CHECKS = {
    technique="TLC trace validation (Trace_AnkoEq.tla over AnkoEq.tla): the six syntactic uses of equality evaluated by the real VM for every ordered pair of the value pool are accepted iff the laws hold and the verdict matches where the statement decides",
    text="AnkoEq gives the relation the statement fixes (nil, same-type primitives, int-vs-float via float64, decimal numeral strings, structural containers) and leaves the rest open; the laws (symmetry, != negation, in/switch coherence, int-float equality iff <= and >=) are asserted for every pair. Exhaustive over the pool in both operand orders.",
    note="Trusted: Go's float64 == (recorded natively), the pool generator's numeric denotation of numeral strings, TLC. Bounds: 66 (quick) / 94 (thorough) values, all unordered pairs x both orders x 5 scripts."),
+ "C17": dict(level="model_checking", design="5 (C17), 3.9",
+   technique="TLC model checking of the walker machine (AnkoWalker.tla) on all trees up to 5 nodes + TLC trace validation of recorded astutil.Walk runs (with injected callback failures) over a kind x slot x kind grammar corpus, nodes enumerated by generic reflection",
+   text="The walker specification (parent before child, finish only when everything was presented, a callback error ends the walk immediately) is explored exhaustively on small trees; every expression kind in every expression slot and every statement kind in every statement slot is parsed by the real parser, walked by the real walker and the recorded walk must be a behaviour of the machine, against the node set obtained independently by reflection.",
+   note="Trusted: the reflection-based node enumeration (exported fields, *ast.TypeStruct excluded), TLC. Bounds: depth-2 kind x slot x kind corpus (about 3.7k sources, all 50 node kinds) + language-core corpora; callback failure injected at the first, middle and last call."),
 # <<ADD>>
 }
 
